@@ -82,6 +82,20 @@ KERNEL int K(k_where_mixed)(const size_t* sc, const unsigned* dc, const int* dx,
   a1_t c; hyb_t<int,4,1> x; if (!mk1(c,sc,dc) || !mk1(x,sc,dx)) return -1;
   return observe(view::where(c,x,y), idx, nidx, oshape, odim, out);
 }
+// mixed element types with THREE ARRAY operands (no scalar: not the pending finding): the element type is the common type of x's and y's elements
+KERNEL int K(k_where_mixed_xy)(const size_t* sc, const unsigned* dc, const int* dx, const long* dy, const size_t* idx, size_t nidx, size_t* oshape, size_t* odim, long* out){
+  a1_t c; hyb_t<int,4,1> x; hyb_t<long,4,1> y; if (!mk1(c,sc,dc) || !mk1(x,sc,dx) || !mk1(y,sc,dy)) return -1;
+  auto v = view::where(c,x,y);
+  static_assert(sizeof(meta::get_element_type_t<decltype(v)>) >= 1);
+  *out = 0; int r = observe(v, idx, nidx, oshape, odim, out);
+  return r == 1 ? (int)(10 + sizeof(meta::get_element_type_t<decltype(v)>)) : r;   // 10 + size of the declared element type
+}
+KERNEL int K(k_where_mixed_yx)(const size_t* sc, const unsigned* dc, const long* dx, const int* dy, const size_t* idx, size_t nidx, size_t* oshape, size_t* odim, long* out){
+  a1_t c; hyb_t<long,4,1> x; hyb_t<int,4,1> y; if (!mk1(c,sc,dc) || !mk1(x,sc,dx) || !mk1(y,sc,dy)) return -1;
+  auto v = view::where(c,x,y);
+  *out = 0; int r = observe(v, idx, nidx, oshape, odim, out);
+  return r == 1 ? (int)(10 + sizeof(meta::get_element_type_t<decltype(v)>)) : r;
+}
 // view::clip(array, amin, amax) does not compile for hybrid or fixed operands (view::where is handed a maybe-typed condition; the repo's own
 // clip tests are disabled in tests/*/CMakeLists.txt), and the n-ary view::ufunc(op, a, b, c) fails its n_args static_assert for array operands.
 // What is instantiable is the ternary functor on three scalars (scalar_ufunc_t with three operands):
